@@ -528,6 +528,8 @@ class ConfigParser(object):
     basic_type_tokens = [tokenize.NAME, tokenize.NUMBER, tokenize.STRING]
     continue_parsing = self._current_token.type in basic_type_tokens
     if not continue_parsing:
+      if token_value:
+        self._raise_syntax_error("Expected a number after '-'.")
       return False, None
 
     while continue_parsing:
